@@ -266,8 +266,10 @@ class ConsumerRun:
                 err = C.OffsetOutOfRangeError("scripted") if k == "range" else C.RequestTimedOutError("scripted")
                 self._pend("fetch").errback(failure.Failure(err))
             elif a == "ProcDone":
-                if x:
+                if x == 1:
                     self.proc_d.callback(None)
+                elif x == 2:
+                    self.proc_d.errback(failure.Failure(defer.CancelledError()))      # the processor's own cancellation
                 else:
                     self.proc_d.errback(failure.Failure(ValueError("processor failed")))
             elif a == "RetryFire":
@@ -342,7 +344,7 @@ def random_run(cfg, seed, length):
             win = win + [BAD]
         add(8, "FetchDone", 0, win)
         add(1.5, "FetchErr", 0, None, rng.choice(["range", "kafka", "kafka"]))
-        add(6, "ProcDone", 1 if rng.random() < 0.85 else 0)
+        add(6, "ProcDone", 1 if rng.random() < 0.85 else rng.choice([0, 0, 2]))
         add(5, "RetryFire")
         add(5, "CommitDone", 0, None, rng.choice(["ok", "ok", "ok", "retriable", "fenced"]))
         add(3, "CommitRetry")
